@@ -183,6 +183,12 @@ def _build(specs, plain=False):
         if not plain:
             if cur is not None:
                 s.set_seed(cur)
+            if cur is not None and pre:
+                # the generator state of another stream was copied into this one earlier (restore_state): that is a
+                # state, not an identity - the stream keeps its own original seed
+                donor = MersenneTwister(og + 123)
+                donor.next_float()
+                s.restore_state(donor.save_state())
             for i_ in range(pre):
                 s.next_float()
                 for _b in range(i_ + 1):       # 1, 2, 3.. boolean draws: not a multiple of any word size
@@ -496,7 +502,11 @@ def _info_sets(out, specs, r):
                 return
             ib = StreamSeedInformation()
             ib.add_stream(nm0, MersenneTwister(specs[0][1]))
-            if nm0 in ib.get_seeds():
+            try:
+                ib.get_seed_values(nm0)          # a query for a stream without a seed list configures nothing
+            except Exception:
+                pass
+            if nm0 in ib.get_seeds() and ib.get_seeds()[nm0] is not None:
                 out.fail("stream-sets:seed-list-of-another-set-used", {"stream": nm0, "seeds": ib.get_seeds()[nm0][:3]})
                 return
             _seeded(ib.get_seeds()).update_seeds(ib.get_streams(), r)
